@@ -43,6 +43,10 @@ func checkC10(c *Ctx, k KCase) *Verdict {
 		return v
 	}
 	b := sr.B
+	if sr.Unparsable != "" {
+		v.Discard = "band-compile-error(C04)"
+		return v
+	}
 	var names []string
 	for n := range b.Inj {
 		names = append(names, n)
